@@ -205,7 +205,9 @@ where
 
         // Since 0 is reserved for the error type, and states are encoded by adding 1, we can only
         // store max_value - 1 states within the goto table
-        assert!(sg.all_states_len().as_storaget() < StorageT::max_value() - StorageT::one());
+        if sg.all_states_len().as_storaget() >= StorageT::max_value() - StorageT::one() {
+            panic!("StorageT is not big enough to store this stategraph.");
+        }
         let mut gotos: Vec<usize> = vec![0; maxg];
 
         // Store automatically resolved conflicts, so we can print them out later
